@@ -83,7 +83,16 @@ def fZ(st="I"):
     return ("Z", st.encode())
 
 
-def fN(rng):
+# field values that are not valid UTF-8 (a LATIN1 backend, cut multi-byte sequences, overlong forms)
+NON_UTF8 = [b"\xe9", b"caf\xe9", b"\xff", b"\xc3", b"abc\xe2\x82", b"\xc0\xaf", b"\xe0\x80\xaf", b"\xf0\x9f\x98", b"\x80\x80", b"na\xefve \xfe\xff"]
+
+
+def fN(rng, nonutf8=None):
+    if nonutf8 is None:
+        nonutf8 = rng.random() < 0.3
+    if nonutf8:
+        v = rng.choice(NON_UTF8)
+        return ("N", b"SNOTICE\0VNOTICE\0C00000\0M" + v + b"\0D" + v + v + b"\0\0")
     return ("N", b"SNOTICE\0VNOTICE\0C00000\0M" + bytes([rng.choice(PAD)]) * rng.choice([1, 5, 40, 300]) + b"\0\0")
 
 
@@ -92,7 +101,12 @@ def fS(rng):
     return ("S", cstr(k) + cstr(rng.choice(["UTC", "x", "app-" + "w" * rng.randint(0, 30)])))
 
 
-def fE():
+def fE(rng=None, nonutf8=None):
+    if nonutf8 is None:
+        nonutf8 = rng is not None and rng.random() < 0.4
+    if nonutf8:
+        v = rng.choice(NON_UTF8)
+        return ("E", b"SERROR\0VERROR\0C22021\0M" + v + b"\0D" + rng.choice(NON_UTF8) + b"\0W" + v + b"\0\0")
     return ("E", b"SERROR\0VERROR\0CXX000\0Mscripted error\0\0")
 
 
@@ -382,7 +396,7 @@ class Gen:
                 fs += rng.choice([self.small, self.small, self.boundary_rows, self.copy_out, lambda: [fC("INSERT 0 1")], lambda: [("I", b"")]])()
         else:                                                       # error in mid-stream
             fs = self.small()[:-1] + self.rows_to(rng.choice([30, self.thrD - 40, self.thrD + 3]), 0)
-            fs = fs[:rng.randint(1, len(fs))] + [fE()]
+            fs = fs[:rng.randint(1, len(fs))] + [fE(rng)]
         if rng.random() < 0.5:
             fs = self.sprinkle(fs)
         st = "E" if fs and fs[-1][0] == "E" and rng.random() < 0.3 else rng.choice(["I", "I", "I", "T"])
@@ -477,7 +491,7 @@ def make_scenarios(run, g, quick, listed=None):
         post = []
         if rng.random() < 0.45:                                    # statements after the COPY in the same Query (F21a/b regression shapes)
             post = rng.choice([g.small, g.boundary_rows, g.copy_out, g.big_row])()
-        creply = ([fE()] if fail else [fC("COPY 1")] + post) + [fZ(rng.choice("IIT") if not fail else "I")]
+        creply = ([fE(rng)] if fail else [fC("COPY 1")] + post) + [fZ(rng.choice("IIT") if not fail else "I")]
         extra = ", copy_in, copy_reply_raw=%s" % encs(creply).hex()
         ex.append(exch([q_raw(g, pre + [FG], extra=extra)], until="G"))
         thr = g.thrc
@@ -511,6 +525,33 @@ def make_scenarios(run, g, quick, listed=None):
         j = [i for i, e in enumerate(ex) if e["until"] == "G"][0]
         ex.insert(j + 1, exch([{"t": "d", "data": "1\t2\n"}, {"t": "d", "data": "w" * 9000}, {"t": "c"}], copy=True))
         add("natural", ex)
+    # ErrorResponse / NoticeResponse whose field values are not valid UTF-8: as the only reply, at the start, in mid-stream
+    # after rows; outside and inside a transaction; then further requests of the same and of another client (pool_size 1)
+    for i in range(10 if quick else 300):
+        ex = []
+        in_txn = rng.random() < 0.4
+        if in_txn:
+            ex.append(exch([{"t": "Q", "sql": "BEGIN"}]))
+        for rep_ in range(rng.randint(1, 2)):
+            err = rng.random() < 0.6
+            bad = fE(rng, True) if err else fN(rng, True)
+            pos = rng.choice(["only", "start", "mid"])
+            rows = g.small()[:-1] if rng.random() < 0.6 else g.boundary_rows()[:-1]
+            if err:
+                fs = [bad] if pos in ("only", "start") else rows + [bad]
+                if pos == "start" and rng.random() < 0.5:
+                    fs = [fN(rng, True), bad]
+            else:
+                fs = [bad, fC("DO")] if pos == "only" else ([bad] + rows + [fC("SELECT 1")] if pos == "start" else rows[:1 + len(rows) // 2] + [bad] + rows[1 + len(rows) // 2:] + [fC("SELECT 1")])
+            ex.append(exch([q_raw(g, fs + [fZ(("E" if err else "T") if in_txn else "I")])]))
+            ex.append(exch([q_raw(g, g.small() + [fZ("T" if in_txn and not err else ("E" if in_txn else "I"))])]))
+        if in_txn:
+            ex.append(exch([{"t": "Q", "sql": "ROLLBACK"}]))
+        other = exch([q_raw(g, g.small() + [fZ("I")])])
+        other["c"] = "c2"
+        ex.append(other)
+        ex.append(exch([q_raw(g, g.small() + [fZ("I")])]))
+        add("nonutf8", ex)
     # regression cases of repaired defects (must complete) and known deviations (must reproduce as listed)
     add("regress-F9", [exch([{"t": "Q", "sql": "SELECT 1; COPY t FROM STDIN"}], until="G"),
                        exch([{"t": "d", "data": "1\n"}, {"t": "c"}], copy=True), exch([{"t": "Q", "sql": "SELECT 2"}])])
@@ -543,15 +584,17 @@ def make_scenarios(run, g, quick, listed=None):
     return scns
 
 
+def clients_of(s):
+    return sorted({e.get("c", "c") for e in s["ex"]})
+
+
 def build_steps(g, s):
-    steps = [{"op": "connect", "c": "c", "params": {"user": "u", "database": "db"}, "password": "pw"}]
-    from_client = b""
+    steps = [{"op": "connect", "c": c, "params": {"user": "u", "database": "db"}, "password": "pw"} for c in clients_of(s)]
     for e in s["ex"]:
-        st = {"op": "send", "c": "c", "msgs": e["msgs"]}
-        steps.append(st)
-        e["_splits_pending"] = True
-        steps.append({"op": "recv", "c": "c", "until": e["until"], "count": e["count"], "timeout_ms": e["timeout"]})
-    steps.append({"op": "recv", "c": "c", "until": "", "count": 0, "timeout_ms": 120, "label": "drain"})
+        steps.append({"op": "send", "c": e.get("c", "c"), "msgs": e["msgs"]})
+        steps.append({"op": "recv", "c": e.get("c", "c"), "until": e["until"], "count": e["count"], "timeout_ms": e["timeout"]})
+    for c in clients_of(s):
+        steps.append({"op": "recv", "c": c, "until": "", "count": 0, "timeout_ms": 120, "label": "drain"})
     return steps
 
 
@@ -593,9 +636,10 @@ def analyse(run, g, s, res, known_ids):
     if res.get("harness_error") or res.get("start_error"):
         return ("harness: %s" % (res.get("harness_error") or res.get("start_error")), None)
     ev = res["events"]
-    sent = [e for e in ev if e.get("who") == "c" and e.get("ev") == "sent"]
-    recv = [e for e in ev if e.get("who") == "c" and e.get("ev") == "recv"]
-    if len(sent) != len(s["ex"]) or len(recv) != len(s["ex"]) + 1:
+    cl = clients_of(s)
+    sent = [e for e in ev if e.get("who") in cl and e.get("ev") == "sent"]
+    recv = [e for e in ev if e.get("who") in cl and e.get("ev") == "recv"]
+    if len(sent) != len(s["ex"]) or len(recv) != len(s["ex"]) + len(cl):
         return ("harness: %d sends / %d recvs for %d exchanges" % (len(sent), len(recv), len(s["ex"])), None)
     # backend side, in global order; pgcat's own cleanup statements (none expected here) are set aside
     client_sql = set()
@@ -608,7 +652,7 @@ def analyse(run, g, s, res, known_ids):
     for e in ev:
         if e.get("ev") == "msg":
             sql = (e["detail"].get("sql") or "").strip()
-            is_own = e["tag"] == "Q" and sql in CLEANUP_SQL and e["detail"].get("sql") not in client_sql
+            is_own = e["tag"] == "Q" and (sql in CLEANUP_SQL or sql.startswith("SET ")) and e["detail"].get("sql") not in client_sql
             cur_own[e["conn"]] = is_own
             if not is_own:
                 b_in.append((e["seq"], bytes.fromhex(e["detail"]["raw"])))
@@ -638,7 +682,13 @@ def analyse(run, g, s, res, known_ids):
             problem = "exchange %d: the client received bytes the backend did not send in that order (first difference at byte %d)" % (i, next((k for k in range(min(len(out_sofar), len(got_total))) if out_sofar[k] != got_total[k]), min(len(out_sofar), len(got_total))))
         elif recv[i]["outcome"] != want_outcome:
             problem = "exchange %d: client recv ended %s (expected %s): received %d of the %d bytes the backend had sent" % (i, recv[i]["outcome"], want_outcome, len(got_total), len(out_sofar))
-    drain = bytes.fromhex(recv[-1].get("raw") or "")
+        elif e["expect"] == "ok" and len(out_sofar) > len(got_total):
+            # every reply belongs to its own request: what the backend has written by now and the clients have not
+            # received may only be frames it sent unsolicited after a ReadyForQuery
+            rest_fs, junk = split_frames(out_sofar[len(got_total):])
+            if junk or any(f[0] not in "NSA" for f in rest_fs):
+                problem = "exchange %d: the request was answered (ReadyForQuery received) while %d bytes the backend wrote for it or for earlier requests were still undelivered: replies are shifted" % (i, len(out_sofar) - len(got_total))
+    drain = b"".join(bytes.fromhex(r.get("raw") or "") for r in recv[len(s["ex"]):])
     all_out = b"".join(b for _, b in b_out)
     local = [i for i, e in enumerate(s["ex"]) if e["expect"] == "local"]
     if not problem and not local and got_total + drain != all_out and not any(e["expect"] == "blocked" for e in s["ex"]):
@@ -731,6 +781,26 @@ def check_wire(run, wire, quick, samples, distinct, known_ids):
             return n_streams
         exprs.append(model_exprs(s, obs))
         idx.append(si)
+    # the monitors must see through harness-side mutants of real observations (non-UTF-8 scenarios: two clients)
+    import copy
+    caught = tried = 0
+    for s, res in [(s, r) for s, r in zip(scns, results) if s["kind"] == "nonutf8" and s.get("obs")][:4]:
+        muts = list(CC.shifted(res))
+        r2 = copy.deepcopy(res)
+        rc = [e for e in r2["events"] if e.get("ev") == "recv" and e.get("raw")]
+        rc[len(rc) // 2]["raw"] = rc[len(rc) // 2]["raw"][:-2] + ("00" if rc[len(rc) // 2]["raw"][-2:] != "00" else "01")
+        muts.append(("one byte of a reply changed", r2))
+        r3 = copy.deepcopy(res)
+        ms = [k for k, e in enumerate(r3["events"]) if e.get("ev") == "msg"]
+        del r3["events"][ms[-1]]
+        muts.append(("a request lost on the way to the server", r3))
+        for label, r in muts:
+            tried += 1
+            if analyse(run, g, s, r, known_ids)[0]:
+                caught += 1
+            else:
+                run.broken.append("monitor self-test: %s went unnoticed (caching-off leg)" % label)
+    run.cov["monitor_selftest"] = "%d/%d harness-side mutants flagged" % (caught, tried)
     for k in sorted(reproduced):
         if k in known_ids:
             run.known_finding(KNOWN_TEXT[k], key=k)
@@ -808,6 +878,8 @@ def cached_reply(g):
         fs = [("I", b"")]
     else:
         fs = [f for f in g.small() if f[0] == "D"] + [("s", b"")]      # portal suspended
+    if rng.random() < 0.10:                                            # the Execute fails: at once or after rows
+        fs = [f for f in fs if f[0] in "TDNS"][:rng.randint(0, 4)] + [fE(rng)]
     return g.sprinkle(fs) if rng.random() < 0.3 else fs
 
 
@@ -815,7 +887,7 @@ def check_wire_cached(run, wire, quick, samples, distinct):
     """statement caching on: identity modulo the permitted differences (props/c03cache.py)"""
     thrD, thrd, thrc = gen_consts()
     g = Gen(run.rng, thrD, thrd, thrc)
-    scns = CC.make_scenarios(run, g, quick, lambda: cached_reply(g))
+    scns = CC.make_scenarios(run, g, quick, lambda: cached_reply(g), lambda err: (fE(run.rng, True) if err else fN(run.rng, True)))
     full = [CC.build(g, s, client_encode) for s in scns]
     results = W.run_scenarios(wire, full, timeout=120)
     run.log("wire (caching on): %d scenarios run" % len(scns))
